@@ -15,6 +15,12 @@ Gen(sh, sd) ==
   LET f(i, j) == ElemPool[((sd + 2 * i + j) % 5) + 1]
   IN IF sh = <<1, 1>> THEN f(1, 1) ELSE Matrix(sh[1], sh[2], f)
 
+\* ... and with blank elements too (only a referenced range can hold them)
+ElemPoolB == <<E6, E1, E3, E6, E4, E2>>
+GenB(sh, sd) ==
+  LET f(i, j) == ElemPoolB[((sd + 2 * i + j) % 6) + 1]
+  IN IF sh = <<1, 1>> THEN f(1, 1) ELSE Matrix(sh[1], sh[2], f)
+
 CONSTANT EmitObl
 VARIABLES kind, x, y, dst, out
 vars == <<kind, x, y, dst, out>>
@@ -26,7 +32,9 @@ Init ==
   /\ out = Pending
   /\ \/ /\ kind \in {"+", "&", "=", "*"}
         /\ \E s1 \in ShapeSet, s2 \in ShapeSet, d \in 0..1 :
-              x = Gen(s1, d) /\ y = Gen(s2, d + 2)
+              \/ x = Gen(s1, d) /\ y = Gen(s2, d + 2)
+              \/ x = GenB(s1, d) /\ y = Gen(s2, d + 2)       \* blanks on the left,
+              \/ x = Gen(s1, d) /\ y = GenB(s2, d + 1)       \* on the right
         /\ dst = <<0, 0>>
      \/ /\ kind = "u-"
         /\ \E s1 \in ShapeSet, d \in 0..2 : x = Gen(s1, d)
